@@ -299,6 +299,8 @@ def explain(desc, text, data, diff):
                 return KF_RVC_X0
             if regs[:1] == ["x2"] and (pm, dm) == ("c.lui", "c.addi16sp"):
                 return KF_RVC_X0  # C.LUI with rd = x2 is the C.ADDI16SP encoding
+            if (pm, dm) == ("c.addi4spn", "c.unimp") and desc["cls"] == "CAddi4spn" and desc["args"][1:] == [0]:
+                return KF_RVC_X0  # nzuimm = 0 is reserved: with rd' = x8 it is the all-zero illegal instruction
             if (pm, dm) == ("c.bneqz", "c.bnez"):
                 return KF_RVC_BNEQZ
             if (pm, dm) in (("c.slli", "c.slli64"), ("c.srli", "c.srli64"), ("c.srai", "c.srai64")):
@@ -439,6 +441,8 @@ def _worker(arg):
         kf = class_exclusion(target, cid)
         if kf and kf in open_ids:
             continue
+        if per_target <= 5000 and target in ("riscv:rvc", "riscv:rvf") and cls.__module__ == "ppci.arch.riscv.instructions":
+            continue  # quick: the base ISA's classes are swept once, under target "riscv"
         if per_target <= 5000:
             alts = set()
             for i, sub in G.ctor_alternatives(cls):
